@@ -60,7 +60,7 @@ def check_tables(out, dump: dict) -> dict:
         if b is None:
             out.disagree("tables.backrefs", {"owner": owner, "name": n}, "present", "missing row")
             continue
-        types = acc._ReferenceSearchingAccessor__candidate_types()
+        types = common.get_private(acc, "_ReferenceSearchingAccessor__candidate_types", callable, ("candidate",))()
         want = []
         for t_ in types:
             if isinstance(t_, str):
